@@ -594,6 +594,11 @@ func (pace *Pace) doCamEcdh(paceConfig *PaceConfig, domainParams *DomainParams, 
 	}
 	slog.Debug("doCamEcdh", "CA-IC", utils.BytesToHex(caIC))
 
+	// the chip-authentication data is a scalar in [1, n-1]: c and c+n act alike and would otherwise both verify
+	if v := new(big.Int).SetBytes(caIC); v.Sign() == 0 || v.Cmp(domainParams.ec.Params().N) >= 0 {
+		return fmt.Errorf("[doCamEcdh] chip-authentication data out of range")
+	}
+
 	// 4.4.3.5.2 Verification by the terminal
 	// The terminal SHALL decrypt AIC to recover CAIC and verify PKMap,IC = KA(CAIC, PKIC, DIC), where PKIC is the static public
 	// key of the eMRTD chip.
@@ -975,6 +980,11 @@ func VerifyEvidence(doc *document.Document, evidence *document.PaceCamEvidence) 
 	caIC, err := decryptEcadIC(paceConfig.cipher, ksEnc, evidence.EcadIC)
 	if err != nil {
 		return nil, fmt.Errorf("[VerifyEvidence] %w", err)
+	}
+
+	// the chip-authentication data is a scalar in [1, n-1]: c and c+n act alike and would otherwise both verify
+	if v := new(big.Int).SetBytes(caIC); v.Sign() == 0 || v.Cmp(domainParams.ec.Params().N) >= 0 {
+		return nil, fmt.Errorf("[VerifyEvidence] chip-authentication data out of range")
 	}
 
 	// get chip static public key from CardSecurity
